@@ -8,7 +8,7 @@ from vlib import core, gen
 PROP = "C06"
 META = {
     "technique": "Coq proof: refinement of an executable model of linkedBuffer/bufferSlice/allocator/moveTo to a byte queue, by induction on the op sequence; tie: differential execution of the real linkedBuffer pair (real moveToWithoutLock/readMore, heap-backed bufferManager, small classes) against the model on generated op sequences, plus an independent byte-queue oracle",
-    "level_text": "see Props/C06.v: the full statement is refuted at size 0 (two nil dereferences, both reproduced on the real code); the refinement theorems are proved for all receive-buffer shapes, all sizes > 0, all op sequences of the covered op set; the remaining ops are covered by the correspondence harness.",
+    "level_text": "see Props/C06.v: the full statement C06_full is kept as a Definition (its two former size-0 refutations are repaired and kept as regression theorems + harness cases); the refinement theorems are proved for all receive-buffer shapes, all sizes 0 <= n <= Len, all op sequences of the covered op set (reader side + fallback transport); the remaining ops are covered by the correspondence harness.",
     "level_note": "Trusted: coqc kernel; the hand-written model is tied to /repo by sampled differential runs (sizes relative to slice capacities, exhaustion, fallback); negative sizes and uint32 truncation of sizes are outside the model; Stream.Flush is mirrored without queue/socket (level (i)).",
 }
 
@@ -26,6 +26,8 @@ def op_to_coq(o):
         return "WByte (kbyte %d%%Z)" % a
     if k == "FL":
         return "WFlush"
+    if k == "WA":
+        return "WAdopt %d" % n
     if k in KRD:
         return "%s %d" % (KRD[k], n)
     if k == "RY":
